@@ -16,6 +16,7 @@
 EXTENDS FilterSet
 
 CONSTANTS MaxTotal, MaxPerKind
+ASSUME MaxTotal <= 4
 
 A == 1
 B == 2
@@ -44,10 +45,11 @@ NI == Len(ItemTab)
 Item(j) == ItemTab[j]
 KindOf(j) == ItemTab[j].kind
 
-RECURSIVE MS(_, _)
-MS(n, lo) == IF n = 0 THEN {<<>>} ELSE UNION {{<<j>> \o t : t \in MS(n - 1, j)} : j \in lo..NI}
+\* multisets as non-decreasing sequences of item numbers (building the set of all multisets first made the computation of
+\* the initial states take minutes; Init enumerates them directly)
+NonDecr(s) == \A i \in 1..(Len(s) - 1) : s[i] <= s[i + 1]
 PerKindOk(s) == \A k \in 0..3 : Cardinality({i \in 1..Len(s) : KindOf(s[i]) = k}) <= MaxPerKind
-Sets == {s \in UNION {MS(n, 1) : n \in 0..MaxTotal} : PerKindOk(s)}
+IsSet(s) == NonDecr(s) /\ PerKindOk(s)
 FsOf(s) == [i \in 1..Len(s) |-> Item(s[i])]
 
 Msg(ecu, ext, apid, ctid, vmm, text, lc) == [ecu |-> ecu, ext |-> ext, apid |-> apid, ctid |-> ctid, vmm |-> vmm, text |-> text, lc |-> lc]
@@ -100,7 +102,10 @@ vars == <<items, si, i, out, passed, filtered, pc>>
 Fs == FsOf(items)
 S == Streams[si]
 
-Init == items \in Sets /\ si = 0 /\ i = 0 /\ out = <<>> /\ passed = 0 /\ filtered = 0 /\ pc = "set"
+\* four non-decreasing slots over 0..NI, 0 = unused (MaxTotal <= 4): enumerated directly, nothing is built and filtered
+Init == (\E x1 \in 0..NI : \E x2 \in x1..NI : \E x3 \in x2..NI : \E x4 \in x3..NI :
+            LET q == SelectSeq(<<x1, x2, x3, x4>>, LAMBDA v : v # 0) IN Len(q) <= MaxTotal /\ IsSet(q) /\ items = q)
+        /\ si = 0 /\ i = 0 /\ out = <<>> /\ passed = 0 /\ filtered = 0 /\ pc = "set"
 Choose == pc = "set" /\ si' \in 1..NS /\ pc' = "run" /\ UNCHANGED <<items, i, out, passed, filtered>>
 Step == /\ pc = "run" /\ i < Len(S)
         /\ i' = i + 1
@@ -124,7 +129,7 @@ SetRules == (pc = "run" /\ si = 1 /\ i = 0) => \A k \in 1..NM : \A we \in BOOLEA
     /\ Keep(Rev(Fs), m, we) = Keep(Fs, m, we)                                 \* the order of the filters is irrelevant
     /\ (Keep(Fs, m, FALSE) => (Active(Fs, KPos) = {} \/ \E j \in Active(Fs, KPos) : Match(Fs[j], m)))
     /\ ExportKeep(Fs, m, {}) = Keep(Fs, m, TRUE)                               \* export without lifecycles to keep
-    /\ \A c \in 1..NX : ExportKeep(Fs, XMsgs[k], XKeepOpts[c]) =>
+    /\ \A c \in 1..NX : ExportKeep(Fs, XMsgs[k], XKeepOpts[c]) =
                             (Keep(Fs, XMsgs[k], TRUE) /\ (XKeepOpts[c] = {} \/ XMsgs[k].lc \in XKeepOpts[c]))
 \* step by step: the message just handled is the last forwarded one iff it is kept (the whole sequence is compared with
 \* FwdSeq once per stream in Closed)
@@ -150,7 +155,8 @@ EmitScn == pc = "emitted" =>
     PrintT(<<"SCN", ToJson([items  |-> items,
                             keepEv |-> KeepVec(TRUE),
                             keepNo |-> kn,
-                            xkeep  |-> [c \in 1..NX |-> [k \in 1..NM |-> ExportKeep(Fs, XMsgs[k], XKeepOpts[c])]],
+                            xkeep  |-> LET kx == [k \in 1..NM |-> Keep(Fs, XMsgs[k], TRUE)]      \* = ExportKeep, see SetRules
+                                       IN [c \in 1..NX |-> [k \in 1..NM |-> kx[k] /\ (XKeepOpts[c] = {} \/ XMsgs[k].lc \in XKeepOpts[c])]],
                             fwd    |-> [k \in 1..NS |-> LET q == FwdFrom(kn, Streams[k])
                                                           IN [pos |-> q, passed |-> Len(q), filtered |-> Len(Streams[k]) - Len(q)]]])>>)
 =============================================================================
